@@ -676,6 +676,8 @@ Qed.
 Fixpoint node_fuel (n : node) : nat :=
   match n with
   | Elt _ _ ch => 4 + fold_right (fun x a => node_fuel x + a)%nat 0%nat ch
+  | CData ch => 2 + fold_right (fun x a => (match x with Text t => length t | _ => 0 end) + a)%nat 0%nat ch
+  | SubTree _ roots => fold_right (fun x a => node_fuel x + a)%nat 0%nat roots
   | _ => 0
   end.
 Definition list_fuel (ch : list node) : nat := 2 + fold_right (fun x a => node_fuel x + a)%nat 0%nat ch.
